@@ -154,7 +154,7 @@ class Ctx:
         if c.status in ("sat", "unknown"):
             self.nfail += 1
 
-    def _relevant_hyps(self, cond):
+    def _relevant_hyps(self, cond, transitive=True):
         """cone of influence: assumptions sharing (transitively) a variable with the claim; dropping the
         others only weakens the premise, so `unsat` stays sound"""
         cache = self.__dict__.setdefault("_hyp_fv", {})
@@ -172,7 +172,7 @@ class Ctx:
             for i, fv in enumerate(fvs):
                 if not chosen[i] and (not fv or fv & need):
                     chosen[i] = True
-                    if not fv <= need:
+                    if transitive and not fv <= need:
                         need |= fv
                         changed = True
         return [h for h, c in zip(self.hyps, chosen) if c]
@@ -198,8 +198,13 @@ class Ctx:
         if cond is S.TRUE:
             self._record(Claim(name, "unsat", trivial=True))
             return
-        hyps = self._relevant_hyps(cond)
+        hyps = self._relevant_hyps(cond, transitive=False)
         r = smt.prove(hyps, cond, timeout_ms=self.timeout_ms, tag=name.split("[")[0], prefer=self.prefer)
+        if r.status != "unsat":
+            hyps2 = self._relevant_hyps(cond)
+            if len(hyps2) > len(hyps):
+                hyps = hyps2
+                r = smt.prove(hyps, cond, timeout_ms=self.timeout_ms, tag=name.split("[")[0] + ":cone", prefer=self.prefer)
         if r.status == "sat" and len(hyps) < len(self.hyps):
             # a model found under a subset of the assumptions must be confirmed under all of them
             r = smt.prove(self.hyps, cond, timeout_ms=self.timeout_ms, tag=name.split("[")[0] + ":all-hyps", prefer=self.prefer)
